@@ -117,6 +117,37 @@ def shipped(ctx):
         if data != before:
             ctx.violation(f'building {name} modified the input data', {'file': name})
         env2 = factory_env_from_data(copy.deepcopy(before))
+        # the action space is the listed actions IN THE LISTED ORDER (index i = the i-th listed action)
+        listed = list(desc['actions'])
+        r.shuffle(listed)
+        variant = copy.deepcopy(before)
+        variant['action_space'] = [envs.ANAMES[a] for a in listed]
+        try:
+            ev = factory_env_from_data(variant)
+            got_order = [envs.ACTS.index(a) for a in ev.action_space.actions]
+            if got_order != listed or [envs.ACTS.index(ev.action_space.int_to_action(i)) for i in range(len(listed))] != listed:
+                ctx.violation(f'{name}: the action space built from the listed actions {listed} is {got_order}', {'file': name, 'listed': listed})
+        except Exception as e:  # noqa: BLE001
+            ctx.violation(f'{name}: a permuted action list does not build: {type(e).__name__}', {'file': name, 'listed': listed})
+        if [envs.ACTS.index(a) for a in env1.action_space.actions] != desc['actions']:
+            ctx.violation(f'{name}: the action space is not the listed actions in the listed order', {'file': name})
+        # building from the FILE is repeatable too: two builds are two independent environments
+        from gym_gridverse.envs.yaml.factory import factory_env_from_yaml
+        path = os.path.join(vt.boot.REPO, 'yaml', name)
+        f1, f2 = factory_env_from_yaml(path), factory_env_from_yaml(path)
+        if f1 is f2 or f1.state_space is None:
+            ctx.violation(f'{name}: building twice from the same file returns one shared environment object', {'file': name})
+        else:
+            sd = r.randrange(1 << 30)
+            acts = [r.choice(desc['actions']) for _ in range(12)]
+            f1.set_seed(sd); f2.set_seed(sd)
+            f1.reset(); f2.reset()
+            t1, t2 = [wire.cstate(f1.state)], [wire.cstate(f2.state)]
+            for a in acts:          # interleaved
+                t1.append((f1.step(envs.ACTS[a]), wire.cstate(f1.state)))
+                t2.append((f2.step(envs.ACTS[a]), wire.cstate(f2.state)))
+            if not core.same(t1, t2):
+                ctx.violation(f'{name}: two environments built from the same file and seeded alike diverge when used interleaved (shared state)', {'file': name, 'seed': sd})
         comp.DIRECT = True
         try:
             hand = comp.build_env(desc)
